@@ -70,6 +70,9 @@ PINS["split / array_split VJP for cut points"] = ("C01", ["regress/C01/split_cut
 PINS["tanh rules use (1 + tanh x)(1 - tanh x)"] = ("C07", ["regress/C07/tanh-saturated-forward-over-reverse.json"])
 PINS["maximum/minimum/fmax/fmin JVPs return a tangent of the output"] = ("C05", ["regress/C05/maximum-jvp-complex-partner.json"])
 PINS["power rule for the base replaces the exponent only at"] = ("C07", ["regress/C07/power-traced-exponent-zero.json"])
+PINS["grad_and_aux refuses non-scalar and complex first outputs"] = ("C15", ["regress/C15/grad-and-aux-array-output.json", "regress/C15/grad-and-aux-complex-output.json"])
+PINS["grad_named counts positions among the parameters"] = ("C16", ["regress/C16/grad-named-bound-method.json", "regress/C16/grad-named-callable-object.json"])
+PINS["resolve a negative argnum among the function"] = ("C16", ["regress/C16/htp-negative-argnum.json", "regress/C16/tjp-negative-argnum.json"])
 PINS["rfft/irfft family VJPs resolve an entry -1"] = ("C01", ["regress/C01/rfftn-s-minus-one.json"])
 PINS["transform the cotangent with the resolved lengths"] = ("C01", ["regress/C01/rfft2-s-last-minus-one.json"])
 PINS["applies to floating-point inputs only"] = ("C15", ["regress/C15/int-stack-forward-tangent.json"])
